@@ -249,6 +249,16 @@ func oracleC03(r *Result) {
 			if t.TInvoke.Equal(t.TReturn) {
 				w.probe("issueinstant_checked_at_exact_instant")
 			}
+			// "IssueInstant <= now < NotOnOrAfter" with now = the instant the response is issued, i.e. starts to leave the IdP: a
+			// response stamped before a slow storage call (or before the clock moved) may already be expired when it is handed over
+			if !t.TWrite.IsZero() {
+				if !ii.After(t.TWrite) && !t.TWrite.Before(na) {
+					bad("expired-when-issued", "", fmt.Sprintf("now (%s, when the reply was written) < NotOnOrAfter", t.TWrite.UTC().Format(time.RFC3339Nano)), fmt.Sprintf("IssueInstant %s NotOnOrAfter %s", a.IssueInstant, a.NotOnOrAfter))
+				}
+				if t.TWrite.After(t.TInvoke) {
+					w.probe("window_checked_after_clock_moved_during_request")
+				}
+			}
 		}
 		// ids
 		if m.ID == "" || a.ID == "" || m.ID == a.ID || !isNCName(m.ID) || !isNCName(a.ID) {
@@ -393,7 +403,7 @@ func oracleC04(r *Result) {
 func (g G) planFlows(prop string) *Plan {
 	o := &mixOpts{family: "flows",
 		world: worldOpts{maxSPs: 3, maxUsers: 4, maxReplicas: 2, hardPct: 45, hardURLPct: 35, customAttrs: true, issuerVariety: true, endpointVariety: true,
-			metaVariety: true, timeFormatVariety: true, parkVariety: true},
+			metaVariety: true, timeFormatVariety: true, parkVariety: true, bigUserPct: 4},
 		wSSO: 22, wCallback: 22, wAttrQ: 8, wMeta: 6, wCert: 2, wSLO: 2,
 		wResume: 25, wFinish: 10, wComplete: 10, wAdvance: 6, wRotate: 3, wRotateMeta: 2, wRestart: 1, wRereg: 1,
 		hostVariety: true, minSteps: 4, maxSteps: 36, maxPre: 4, hardPre: true, autoFinishPct: 45, callbackAfter: 70, raceBias: true}
